@@ -20,6 +20,9 @@ pub enum Op {
     /// get_or_fetch whose caller gives up: the future is polled `polls` times and dropped if it has not resolved; foyer's
     /// fetch task carries on alone. The scenario then waits for it (the operation is logged as the fetch it amounts to).
     AbandonFetch { k: u64, ver: u32, w: u32, yields: u8, polls: u8 },
+    /// single-client runs: a get_or_fetch of `k` is started (one poll), the same client inserts `k` explicitly (which
+    /// closes the fetch round), drops the fetch future and waits for the orphaned fetch task. Logged as the insert.
+    FetchThenInsert { k: u64, ver: u32, ins_ver: u32, w: u32, yields: u8 },
     Contains { k: u64 },
     Touch { k: u64 },
     Remove { k: u64 },
